@@ -568,3 +568,291 @@ def oracle_merger(res):
                 fails.append(("C05", "seek returned " + real, i))
             it["c"].seek(unhx(t[2])); it["seeked"] = True
     return fails
+
+
+# ---------------------------------------------------------------------------------------------
+# sorter family (C06)
+
+def gen_sorter_case(rng, stats, pool=None):
+    universe = gen_keys(rng, rng.pick([1, 2, 4, 8, 14]), stats, long_ok=False)
+    nadds = rng.pick([0, 1, 3, 8, 16, 30, 50])
+    shape = rng.pick(["random", "sorted", "reversed", "allequal", "distinct"])
+    stats.bump("sorter_shape_" + shape)
+    keys = [rng.pick(universe) for _ in range(nadds)] if universe else []
+    if shape == "sorted":
+        keys.sort()
+    elif shape == "reversed":
+        keys.sort(reverse=True)
+    elif shape == "allequal" and keys:
+        keys = [keys[0]] * len(keys)
+    elif shape == "distinct":
+        keys = list(dict.fromkeys(keys))
+        if rng.chance(1, 2):
+            keys.reverse()
+    merge = "none" if shape == "distinct" and rng.chance(1, 2) else "union"
+    mem = rng.pick([1, 24, 40, 64, 100, 200, 400, 1000, 100000])
+    pool = rng.pick([None, None, 0, 1, 2, 4, 8]) if pool is None else pool
+    stats.bump("sorter_pool_%s" % pool); stats.bump("sorter_mem_%d" % mem)
+    lines = ["reset", "@i sys.info",
+             "s.new 1 mem=%d minmem=0 merge=%s eo=$i.eo pid=$i.pid%s" % (mem, merge, "" if pool is None else " pool=%d" % pool)]
+    for ai, k in enumerate(keys):
+        lines.append("s.add 1 %s %s" % (hx(k), hx(bytes([0x30 + (ai >> 8), ai & 0xff]))))
+    via_write = rng.chance(1, 4)
+    if via_write:
+        lines += ["w.new 5 comp=0 bs=64 ri=2 minbs=16 pre=-", "s.write 1 5", "s.add 1 61 3030", "s.write 1 5", "w.fin 5", "r.openw 6 5", "r.it 6 20 iter"]
+        lines += ["r.next 20"] * (len(set(keys)) + 1)
+    else:
+        lines.append("s.iter 1 20")
+        for _ in range(len(set(keys)) + 2):
+            lines.append("m.next 20")
+        lines.append("s.add 1 61 3030")          # refused once iteration has begun
+        if rng.chance(1, 3):
+            lines += ["m.seek 20 %s" % hx(gen_query_key(rng, sorted(set(keys)))), "m.next 20", "m.next 20"]
+    lines.append("s.spills 1")
+    return lines
+
+
+def oracle_sorter(res):
+    fails = []
+    S = None
+    for i, r in enumerate(res):
+        t = r["req"].split(" "); op = t[0]; real = r["real"]
+        if real == "asan" or real.startswith("crash") or real == "abort":
+            fails.append(("C06", "sorter operation %s died: %s %s" % (op, real, r.get("stderr", "")[-300:]), i)); break
+        if op == "s.new":
+            kvs = dict(a.split("=", 1) for a in t[2:] if "=" in a)
+            S = {"kv": kvs, "adds": [], "iterating": False, "bytes": 0, "n": 0, "spills": 0, "iters": {},
+                 "limit": max(int(kvs.get("mem", "0")), int(kvs.get("minmem", "0"))), "eo": int(kvs.get("eo", "8"))}
+        elif op == "s.add" and S is not None:
+            if S["iterating"]:
+                if real != "fail":
+                    fails.append(("C06", "add after iteration began returned " + real, i))
+                continue
+            if real != "ok":
+                fails.append(("C06", "add returned " + real, i)); continue
+            k, v = unhx(t[2]), unhx(t[3])
+            S["adds"].append((k, v)); S["bytes"] += S["eo"] + len(k) + len(v); S["n"] += 1
+            if S["bytes"] + 8 * S["n"] >= S["limit"]:
+                S["spills"] += 1; S["bytes"] = 0; S["n"] = 0
+        elif op in ("s.iter", "s.write") and S is not None:
+            if S["iterating"]:
+                if op == "s.write" and real != "fail":
+                    fails.append(("C06", "write after iteration began returned " + real, i))
+                continue
+            if S["n"] > 0:
+                S["spills"] += 1; S["n"] = 0; S["bytes"] = 0
+            S["iterating"] = True
+            want = {}
+            for k, v in S["adds"]:
+                want.setdefault(k, []).append(v)
+            content = [(k, b"".join(sorted(want[k]))) for k in sorted(want)]
+            S["content"] = content
+            if op == "s.iter":
+                if real != "ok":
+                    fails.append(("C06", "sorter_iter returned " + real, i)); continue
+                S["iters"][t[2]] = Cursor(content, ("iter",))
+            elif real != "ok":
+                fails.append(("C06", "sorter_write returned " + real, i))
+        elif op == "m.next" and S is not None and t[1] in S["iters"]:
+            exp = S["iters"][t[1]].next()
+            want = "fail" if exp is None else "ent %s %s" % (hx(exp[0]), hx(exp[1]))
+            if real != want:
+                fails.append(("C06", "sorter output: next returned %s, expected %s" % (real[:80], want[:80]), i))
+        elif op == "m.seek" and S is not None and t[1] in S["iters"]:
+            S["iters"][t[1]].seek(unhx(t[2]))
+        elif op == "r.it" and S is not None and "content" in S:
+            S["iters"]["r" + t[2]] = Cursor(S["content"], ("iter",))
+        elif op == "r.next" and S is not None and ("r" + t[1]) in S["iters"]:
+            exp = S["iters"]["r" + t[1]].next()
+            want = "fail" if exp is None else "ent %s %s" % (hx(exp[0]), hx(exp[1]))
+            if real != want:
+                fails.append(("C06", "file written by sorter_write: next returned %s, expected %s" % (real[:80], want[:80]), i))
+        elif op == "s.spills" and S is not None:
+            want = "spills %d tmpl=DIR/.mtbl.PID.XXXXXX leftover=0" % S["spills"]
+            if real != want:
+                fails.append(("C06", "spill accounting: %s, expected %s" % (real, want), i))
+    return fails
+
+
+# ---------------------------------------------------------------------------------------------
+# fileset family (C07)
+
+def gen_fileset_case(rng, stats, nops=None):
+    ntab = rng.pick([2, 3, 4, 5])
+    names = ["t%d.mtbl" % i for i in range(ntab)] + ["junk.txt", "zz-missing.mtbl"]
+    lines = ["reset", "fs.begin"]
+    universe = gen_keys(rng, 8, stats, long_ok=False)
+    for t in range(ntab):
+        ks = sorted(k for k in universe if rng.chance(1, 2))
+        lines.append("fs.table %d %s" % (t, " ".join("%s %s" % (hx(k), hx(bytes([0x50 + t, i]))) for i, k in enumerate(ks))))
+        lines.append("fs.file t%d.mtbl %d" % (t, t))
+    lines.append("fs.file junk.txt nt")
+    def setline():
+        pick = [n for n in names if rng.chance(1, 2)]
+        rng_order = list(pick)
+        # listed by absolute path sometimes
+        return " ".join(("/" + n if rng.chance(1, 4) else n) for n in rng_order)
+    lines.append("fs.set " + setline())
+    def opts():
+        iv = rng.pick(["0", "3", "10", "never"])
+        o = "interval=" + iv
+        if rng.chance(1, 4):
+            o += " namef=" + rng.pick(["t1", "t", "mtbl", "t2"])
+        if rng.chance(1, 5):
+            o += " minent=%d" % rng.pick([1, 2, 4])
+        stats.bump("fs_interval_" + iv)
+        return o
+    lines.append("fs.init 0 " + opts())
+    handles = [0]; next_h = 1
+    iters = {}      # iid -> hid
+    iter_start = {}
+    next_i = 100
+    n = nops if nops is not None else rng.pick([6, 10, 15, 22])
+    for _ in range(n):
+        r = rng.below(100)
+        if r < 12:
+            lines.append("fs.set " + setline()); stats.bump("fs_op_set")
+        elif r < 17:
+            nm = rng.pick(names[:ntab]); lines.append("fs.rm " + nm); stats.bump("fs_op_rm")
+        elif r < 22:
+            t = rng.below(ntab); lines.append("fs.file t%d.mtbl %d" % (t, t)); stats.bump("fs_op_create")
+        elif r < 32:
+            lines.append("fs.tick %d" % rng.pick([1, 2, 4, 11, 100])); stats.bump("fs_op_tick")
+        elif r < 42:
+            lines.append("fs.reload %d" % rng.pick(handles)); stats.bump("fs_op_reload")
+        elif r < 54:
+            lines.append("fs.now %d" % rng.pick(handles)); stats.bump("fs_op_now")
+        elif r < 72 and len(iters) < 6:
+            h = rng.pick(handles)
+            kind = gen_kind(rng, universe, which=rng.pick([0, 0, 1, 2, 3]))
+            lines.append("fs.it %d %d %s" % (h, next_i, kind_args(kind))); iters[next_i] = h
+            iter_start[next_i] = b"" if kind[0] == "iter" else kind[1]
+            next_i += 1; stats.bump("fs_op_open")
+        elif r < 84 and iters:
+            i = rng.pick(sorted(iters))
+            if rng.chance(1, 4):
+                k = gen_query_key(rng, universe)
+                if k < iter_start.get(i, b""):
+                    k = iter_start[i]           # the property requires seeks at or after the start of the iterator's range
+                lines.append("fs.seek %d %s" % (i, hx(k)))
+            lines.append("fs.next %d" % i); stats.bump("fs_op_next")
+        elif r < 92 and iters:
+            i = rng.pick(sorted(iters)); lines.append("fs.close %d" % i); del iters[i]; stats.bump("fs_op_close")
+        elif r < 97 and len(handles) < 3:
+            lines.append("fs.dup %d %d %s" % (rng.pick(handles), next_h, opts())); handles.append(next_h); next_h += 1; stats.bump("fs_op_dup")
+        elif len(handles) > 1:
+            h = rng.pick(handles)
+            if h not in iters.values():
+                lines.append("fs.destroy %d" % h); handles.remove(h); stats.bump("fs_op_destroy")
+    # drain one fresh iterator per live handle, then tear down in a legal order
+    for h in handles:
+        lines.append("fs.it %d %d iter" % (h, next_i)); iters[next_i] = h
+        lines += ["fs.next %d" % next_i] * 6
+        next_i += 1
+    for i in sorted(iters):
+        lines.append("fs.close %d" % i)
+    for h in handles:
+        lines.append("fs.destroy %d" % h)
+    lines.append("fs.end")
+    return lines
+
+
+class FsSpec:
+    """The property's reload rules as a small python machine (independent of the Lean model): when a reload must
+    have happened, what view it produces, what a new iterator therefore shows."""
+    def __init__(self):
+        self.files = {}; self.tables = {}; self.setlines = []; self.stamp = 1; self.sec = 1000
+        self.view = []; self.seen_stamp = 0; self.pending = True; self.last = 0; self.n_open = 0
+        self.handles = {}
+    def do_reload(self):
+        if self.seen_stamp != self.stamp:
+            self.seen_stamp = self.stamp
+            self.view = sorted((n, self.files[n]) for n in self.setlines if n in self.files)
+        self.pending = False; self.last = self.sec
+    def source_op(self, h):
+        iv = self.handles[h]["interval"]
+        if not self.pending and iv is None:
+            return
+        if self.n_open > 0:
+            return
+        if self.pending or self.sec - self.last > iv:
+            self.do_reload()
+    def reload_now(self, h):
+        if self.n_open > 0:
+            self.pending = True
+        else:
+            self.do_reload()
+    def content(self, h):
+        H = self.handles[h]
+        out = {}
+        for n, t in self.view:
+            if t == "nt":
+                continue
+            if H["namef"] and H["namef"] not in n:
+                continue
+            if H["minent"] is not None and len(self.tables.get(t, [])) < H["minent"]:
+                continue
+            for k, v in self.tables.get(t, []):
+                out.setdefault(k, []).append(v)
+        return [(k, b"".join(sorted(out[k]))) for k in sorted(out)]
+
+
+def parse_fs_opts(args):
+    kvs = dict(a.split("=", 1) for a in args if "=" in a)
+    iv = kvs.get("interval", "60")
+    return {"interval": None if iv == "never" else int(iv), "namef": None if kvs.get("namef", "-") == "-" else kvs["namef"],
+            "minent": int(kvs["minent"]) if "minent" in kvs else None}
+
+
+def oracle_fileset(res):
+    fails = []
+    S = FsSpec(); iters = {}
+    for i, r in enumerate(res):
+        t = r["req"].split(" "); op = t[0]; real = r["real"]
+        if real == "asan" or real.startswith("crash") or real == "abort":
+            fails.append(("C07", "fileset operation %s ended in %s (use of a freed reader/merger?) %s" % (op, real, r.get("stderr", "")[-400:]), i)); break
+        if op == "fs.begin":
+            S = FsSpec(); iters = {}
+        elif op == "fs.table":
+            vals = t[2:]
+            S.tables[int(t[1])] = [(unhx(vals[j]), unhx(vals[j + 1])) for j in range(0, len(vals), 2)]
+        elif op == "fs.file":
+            S.files[t[1]] = "nt" if t[2] == "nt" else int(t[2])
+        elif op == "fs.rm":
+            S.files.pop(t[1], None)
+        elif op == "fs.set":
+            S.setlines = [a.lstrip("/") for a in t[1:]]; S.stamp += 1
+        elif op == "fs.tick":
+            S.sec += int(t[1])
+        elif op == "fs.init":
+            S.handles[t[1]] = parse_fs_opts(t[2:])
+        elif op == "fs.dup":
+            S.handles[t[2]] = parse_fs_opts(t[3:])
+        elif op == "fs.reload":
+            S.source_op(t[1])
+        elif op == "fs.now":
+            S.reload_now(t[1])
+        elif op == "fs.it":
+            S.source_op(t[1])
+            kind = parse_kind(t[3:])
+            iters[t[2]] = {"c": Cursor(S.content(t[1]), kind), "h": t[1], "inner_null": False}
+            S.n_open += 1
+            if real != "ok":
+                fails.append(("C07", "iterator creation returned " + real, i))
+        elif op == "fs.next" and t[1] in iters:
+            exp = iters[t[1]]["c"].next()
+            want = "fail" if exp is None else "ent %s %s" % (hx(exp[0]), hx(exp[1]))
+            if real != want:
+                fails.append(("C07", "fileset iterator returned %s, the view of the last reload gives %s" % (real[:70], want[:70]), i))
+        elif op == "fs.seek" and t[1] in iters:
+            c = iters[t[1]]["c"]
+            # a bounded lookup that matched nothing is a NULL inner iterator: seek fails and it stays empty
+            if real == "ok":
+                c.seek(unhx(t[2]))
+            else:
+                c.stuck = True
+        elif op == "fs.close" and t[1] in iters:
+            h = iters[t[1]]["h"]; del iters[t[1]]
+            S.n_open -= 1
+            S.source_op(h)
+    return fails
